@@ -108,7 +108,16 @@ pub async fn add_node(
     let mut added_service_data = vec![];
     let mut failed_service_data = vec![];
 
-    let current_node_count = node_registry.nodes.len() as u16;
+    // Continue numbering after the highest number on record rather than from the number of
+    // recorded services: a service whose installation failed is not recorded, so the length can
+    // fall behind the numbers already handed out, and the next service would reuse a name and
+    // data directory.
+    let current_node_count = node_registry
+        .nodes
+        .iter()
+        .map(|node| node.number)
+        .max()
+        .unwrap_or(0);
     let target_node_count = current_node_count + options.count.unwrap_or(1);
 
     let mut node_number = current_node_count + 1;
